@@ -321,4 +321,190 @@ Proof.
   cbn [ser_disposed]. destruct (ser_disposed so); cbn; discriminate.
 Qed.
 
+Lemma in_resched_tail o (i : @rinstr A) k :
+  In (RIResched o) (i :: k) -> i <> RIResched o -> In (RIResched o) k.
+Proof. intros [->|H] Hne; [contradiction|exact H]. Qed.
+
+Lemma in_resched_ops o (l : list (@rop A)) k : In (RIResched o) k -> In (RIResched o) (map RIOp l ++ k).
+Proof. intros H. apply in_or_app. now right. Qed.
+
+(* RIResched: scheduler.schedule(self.run) *)
+Lemma J_resched (s : @rstate A) m k o :
+  J s m (RIResched o :: k) ->
+  J (with_sched (r_sched s ++ [(r_fresh s, o, false)]) (S (r_fresh s)) s) m k.
+Proof.
+  intros [[N1 N2] H3]. split.
+  - split; cbn; unfold ids; rewrite map_app; cbn.
+    + apply NoDup_app_single; [exact N1|]. intros Hin. specialize (N2 _ Hin). lia.
+    + intros i Hin. apply in_app_or in Hin. destruct Hin as [Hin|[<-|[]]]; [specialize (N2 _ Hin); lia|lia].
+  - intros o2 os2 Hm. destruct (H3 o2 os2 Hm) as (F & C & Lv). split; [exact F|]. split.
+    + intros i Hi. destruct (C i Hi) as [C1 C2]. split; [cbn; lia|]. cbn. intros o3 c Hin.
+      apply in_app_or in Hin. destruct Hin as [Hin|[[= <- _]|[]]]; [eauto|lia].
+    + intros Hs. destruct (Lv Hs) as [D R]. split; [exact D|]. intros Ha.
+      destruct (R Ha) as [[i Hi]|Hk].
+      * left. exists i. cbn. apply in_or_app. now left.
+      * destruct Hk as [[= <-]|Hk]; [|now right]. left. exists (r_fresh s). cbn. apply in_or_app. right. now left.
+Qed.
+
+(* the drain loop takes an item off the scheduler queue *)
+Lemma J_pop (s : @rstate A) m k it o c rest k' :
+  r_sched s = (it, o, c) :: rest ->
+  J s m k ->
+  (forall o2, In (RIResched o2) k -> In (RIResched o2) k') ->
+  (c = false -> forall os, m o = Some os -> ra_stopped os = false -> so_acquired (r_so os) = true ->
+                In (RIResched o) k') ->
+  J (with_sched rest (r_fresh s) s) m k'.
+Proof.
+  intros Es [[N1 N2] H3] Hk Hown. rewrite Es in N1, N2. cbn in N1, N2. split.
+  - split; cbn; [now inversion N1|]. intros i Hin. apply N2. now right.
+  - intros o2 os2 Hm. destruct (H3 o2 os2 Hm) as (F & C & Lv). split; [exact F|]. split.
+    + intros i Hi. destruct (C i Hi) as [C1 C2]. split; [exact C1|]. cbn. intros o3 c3 Hin.
+      apply (C2 o3 c3). rewrite Es. now right.
+    + intros Hs. destruct (Lv Hs) as [D R]. split; [exact D|]. intros Ha.
+      destruct (R Ha) as [[i Hi]|Hk2]; [|right; now apply Hk].
+      rewrite Es in Hi. destruct Hi as [[= E1 E2 E3]|Hi]; [|left; exists i; exact Hi].
+      subst. right. apply (Hown eq_refl os2 Hm Hs Ha).
+Qed.
+
+Lemma fold_so_on_fields : forall (q : list (Z * A)) (so : @sostate A),
+  let so' := fold_left (fun so it => so_on (Next (snd it)) so) q so in
+  so_faulted so' = so_faulted so /\ so_acquired so' = so_acquired so /\
+  ser_disposed so' = ser_disposed so /\ ser_cur so' = ser_cur so.
+Proof.
+  induction q as [|x q IH]; intros so; cbn [fold_left]; [repeat split|].
+  destruct (IH (so_on (Next (snd x)) so)) as (E1 & E2 & E3 & E4).
+  destruct (so_on_fields (Next (snd x)) so) as (F1 & F2 & F3 & F4). cbv zeta in *.
+  repeat split; congruence.
+Qed.
+
+(* ---- the combined invariant ---- *)
+Context (b : Z) (w : option Z).
+
+Definition K (c : @rcfg A) : Prop :=
+  Inv b w c /\ J (rc_st c) (rc_obs c) (rc_k c) /\ Qq (rc_obs c).
+
+Lemma op_k_mono (p : @rop A) k : forall o, In (RIResched o) (RIOp p :: k) -> In (RIResched o) k.
+Proof. intros o H. apply (in_resched_tail o _ _ H). discriminate. Qed.
+
+Lemma JQ_op p s m k l :
+  K (RCfg s m (RIOp p :: k) l) ->
+  J (rc_st (rstep_op react p s m k l)) (rc_obs (rstep_op react p s m k l)) (rc_k (rstep_op react p s m k l)) /\
+  Qq (rc_obs (rstep_op react p s m k l)).
+Proof.
+  intros (I & HJ0 & HQ). cbn [rc_st rc_obs rc_k] in HJ0.
+  assert (HJ : J s m k) by (eapply J_k_mono; [apply op_k_mono|exact HJ0]).
+  assert (Hsame : forall s', r_sched s' = r_sched s -> r_fresh s' = r_fresh s -> J s' m k /\ Qq m).
+  { intros s' E1 E2. split; [eapply J_same_sched; eassumption|exact HQ]. }
+  unfold rstep_op. destruct p as [o|o|v|e| | |d].
+  - (* RSub *)
+    destruct (m o) as [os|] eqn:Hm; cbn [rc_st rc_obs rc_k]; [now apply Hsame|].
+    destruct (r_disposed s); cbn [rc_st rc_obs rc_k].
+    + split.
+      * eapply J_k_mono; [|apply (J_new_stopped s m k o _ Hm); [reflexivity|reflexivity|exact HJ]].
+        intros o2 H. apply in_resched_ops. now right.
+      * apply Qq_upd_stopped; [reflexivity|exact HQ].
+    + set (s2 := with_observers (r_observers (trim s) ++ [o]) (trim s)).
+      set (so1 := fold_left (fun so it => so_on (Next (snd it)) so) (r_queue s2) fresh_so).
+      set (so2 := match r_exception s2 with
+                  | Some e => so_on (Err e) so1
+                  | None => if r_stopped s2 then so_on Done so1 else so1 end).
+      assert (Hf : so_faulted so2 = false /\ so_acquired so2 = false /\
+                   ser_disposed so2 = false /\ ser_cur so2 = None).
+      { destruct (fold_so_on_fields (r_queue s2) fresh_so) as (E1 & E2 & E3 & E4). fold so1 in E1, E2, E3, E4.
+        cbn [fresh_so so_faulted so_acquired ser_disposed ser_cur] in E1, E2, E3, E4. unfold so2. destruct (r_exception s2) as [e|].
+        - destruct (so_on_fields (Err e) so1) as (F1 & F2 & F3 & F4). repeat split; congruence.
+        - destruct (r_stopped s2).
+          + destruct (so_on_fields Done so1) as (F1 & F2 & F3 & F4). repeat split; congruence.
+          + repeat split; assumption. }
+      destruct Hf as (F1 & F2 & F3 & F4).
+      assert (HJ2 : J s2 m k) by (eapply J_same_sched; [| |exact HJ]; reflexivity).
+      pose proof (J_ensure_active s2 m k o so2 (ROState false false true true 0 (snd (ensure_active o s2 so2)))
+                    HJ2 F1) as HJ3.
+      pose proof (ensure_active_owned o s2 so2 F1) as Hown.
+      destruct (ensure_active o s2 so2) as [s3 so3]. cbn [fst snd rc_st rc_obs rc_k] in *.
+      split.
+      * apply HJ3; [rewrite F4; discriminate| |reflexivity]. intros _. split; [exact F3|]. rewrite F2. discriminate.
+      * intros o2 os2. unfold rupd. destruct (Nat.eqb o2 o); [|apply HQ].
+        intros [= <-] _ Ha. cbn in Ha |- *. now apply Hown.
+  - (* RUnsub *)
+    destruct (m o) as [os|] eqn:Hm; cbn [rc_st rc_obs rc_k]; [|now apply Hsame].
+    destruct (r_handle os); cbn [rc_st rc_obs rc_k]; [|now apply Hsame].
+    pose proof (J_rado_dispose s m k o os HJ Hm) as HJ2. pose proof (rado_dispose_stopped s os o) as Hst.
+    destruct (rado_dispose s os o) as [s' os']. cbn [fst snd rc_st rc_obs rc_k] in *.
+    split; [exact HJ2|]. now apply Qq_upd_stopped.
+  - (* RNext *)
+    destruct (r_disposed s); cbn [rc_st rc_obs rc_k]; [now apply Hsame|].
+    destruct (r_stopped s); cbn [rc_st rc_obs rc_k]; [now apply Hsame|].
+    set (s1 := trim (with_queue (r_queue s ++ [(r_clock s, v)]) s)).
+    assert (HJ1 : J s1 m k) by (eapply J_same_sched; [| |exact HJ]; reflexivity).
+    assert (Hdom : forall o, In o (r_observers s) -> m o <> None) by exact (inv_dom _ _ _ I).
+    pose proof (J_so_on_pass (Next v) k (r_observers s) s1 m HJ1) as HJ2.
+    destruct (so_each_spec (fun _ s so => (s, so_on (Next v) so)) (fun so so' => so' = so_on (Next v) so)
+                (fun _ s _ => same_core_refl s) (fun _ _ _ => eq_refl)
+                (r_observers s) s1 m (inv_nodup _ _ _ I) Hdom) as (_ & A2 & A3).
+    destruct (so_each (fun _ s so => (s, so_on (Next v) so)) (r_observers s) s1 m) as [s2 m2].
+    cbn [fst snd] in *.
+    assert (Hdom2 : forall o, In o (r_observers s) -> m2 o <> None).
+    { intros o Hi. destruct (m o) as [os|] eqn:E; [|exfalso; exact (Hdom o Hi E)].
+      destruct (A3 o os Hi E) as [so' [-> _]]. discriminate. }
+    pose proof (J_ensure_pass k (r_observers s) s2 m2 HJ2) as HJ3.
+    destruct (so_each_spec ensure_active
+                (fun so so' => so_faulted so = false -> so_acquired so' = false -> so_queue so' = [])
+                ensure_active_core (fun o s so => ensure_active_owned o s so)
+                (r_observers s) s2 m2 (inv_nodup _ _ _ I) Hdom2) as (_ & B2 & B3).
+    destruct (so_each ensure_active (r_observers s) s2 m2) as [s3 m3]. cbn [fst snd rc_st rc_obs rc_k] in *.
+    split; [exact HJ3|].
+    intros o os3 Hm3 Hs Ha. destruct (in_dec Nat.eq_dec o (r_observers s)) as [Hi|Hni].
+    + destruct (m o) as [os|] eqn:Hm; [|exfalso; exact (Hdom o Hi Hm)].
+      destruct (A3 o os Hi Hm) as [so1 [E2 ->]]. destruct (B3 o _ Hi E2) as [so2 [E3 Q2]].
+      rewrite E3 in Hm3. injection Hm3 as <-. cbn [set_so r_so] in *. apply Q2; [|exact Ha].
+      destruct (so_on_fields (Next v) (r_so os)) as (F1 & _). rewrite F1.
+      exact (proj1 (proj2 HJ o os Hm)).
+    + rewrite (B2 o Hni), (A2 o Hni) in Hm3. exact (HQ o os3 Hm3 Hs Ha).
+  - (* RErr *)
+    destruct (r_disposed s); cbn [rc_st rc_obs rc_k]; [now apply Hsame|].
+    destruct (r_stopped s); cbn [rc_st rc_obs rc_k]; [now apply Hsame|].
+    set (s1 := trim (with_exception (Some e) (with_observers [] (with_stopped true s)))).
+    assert (HJ1 : J s1 m k) by (eapply J_same_sched; [| |exact HJ]; reflexivity).
+    assert (Hdom : forall o, In o (r_observers s) -> m o <> None) by exact (inv_dom _ _ _ I).
+    pose proof (J_final_pass (Err e) k (r_observers s) s1 m HJ1) as HJ2.
+    destruct (so_each_spec (fun o s so => ensure_active o s (so_on (Err e) so))
+                (fun so so' => so_faulted so = false -> so_acquired so' = false -> so_queue so' = [])
+                (fun o s so => ensure_active_core o s (so_on (Err e) so))
+                (fun o s so F => ensure_active_owned o s (so_on (Err e) so)
+                                   (eq_trans (proj1 (so_on_fields (Err e) so)) F))
+                (r_observers s) s1 m (inv_nodup _ _ _ I) Hdom) as (_ & A2 & A3).
+    change (r_observers (with_stopped true s)) with (r_observers s).
+    destruct (so_each (fun o s so => ensure_active o s (so_on (Err e) so)) (r_observers s) s1 m) as [s2 m2].
+    cbn [fst snd rc_st rc_obs rc_k] in *. split; [exact HJ2|].
+    intros o os3 Hm3 Hs Ha. destruct (in_dec Nat.eq_dec o (r_observers s)) as [Hi|Hni].
+    + destruct (m o) as [os|] eqn:Hm; [|exfalso; exact (Hdom o Hi Hm)].
+      destruct (A3 o os Hi Hm) as [so1 [E2 Q2]]. rewrite E2 in Hm3. injection Hm3 as <-.
+      cbn [set_so r_so] in *. apply Q2; [|exact Ha]. exact (proj1 (proj2 HJ o os Hm)).
+    + rewrite (A2 o Hni) in Hm3. exact (HQ o os3 Hm3 Hs Ha).
+  - (* RDone *)
+    destruct (r_disposed s); cbn [rc_st rc_obs rc_k]; [now apply Hsame|].
+    destruct (r_stopped s); cbn [rc_st rc_obs rc_k]; [now apply Hsame|].
+    set (s1 := trim (with_observers [] (with_stopped true s))).
+    assert (HJ1 : J s1 m k) by (eapply J_same_sched; [| |exact HJ]; reflexivity).
+    assert (Hdom : forall o, In o (r_observers s) -> m o <> None) by exact (inv_dom _ _ _ I).
+    pose proof (J_final_pass Done k (r_observers s) s1 m HJ1) as HJ2.
+    destruct (so_each_spec (fun o s so => ensure_active o s (so_on Done so))
+                (fun so so' => so_faulted so = false -> so_acquired so' = false -> so_queue so' = [])
+                (fun o s so => ensure_active_core o s (so_on Done so))
+                (fun o s so F => ensure_active_owned o s (so_on Done so)
+                                   (eq_trans (proj1 (so_on_fields Done so)) F))
+                (r_observers s) s1 m (inv_nodup _ _ _ I) Hdom) as (_ & A2 & A3).
+    change (r_observers (with_stopped true s)) with (r_observers s).
+    destruct (so_each (fun o s so => ensure_active o s (so_on Done so)) (r_observers s) s1 m) as [s2 m2].
+    cbn [fst snd rc_st rc_obs rc_k] in *. split; [exact HJ2|].
+    intros o os3 Hm3 Hs Ha. destruct (in_dec Nat.eq_dec o (r_observers s)) as [Hi|Hni].
+    + destruct (m o) as [os|] eqn:Hm; [|exfalso; exact (Hdom o Hi Hm)].
+      destruct (A3 o os Hi Hm) as [so1 [E2 Q2]]. rewrite E2 in Hm3. injection Hm3 as <-.
+      cbn [set_so r_so] in *. apply Q2; [|exact Ha]. exact (proj1 (proj2 HJ o os Hm)).
+    + rewrite (A2 o Hni) in Hm3. exact (HQ o os3 Hm3 Hs Ha).
+  - cbn [rc_st rc_obs rc_k]. now apply Hsame.
+  - destruct (d <? 0); cbn [rc_st rc_obs rc_k]; now apply Hsame.
+Qed.
+
 End Live.
